@@ -260,9 +260,6 @@ struct World {
     /// (flow id, epoch) -> payouts of ALL claims (single- and multi-epoch, first-ever claims included)
     /// attributed to that epoch from `eff_w` / `snap_seen`
     paid_all: BTreeMap<(u64, u64), u128>,
-    /// native LP the contract was sent without asking for it: the part of an over-paid flow fee that
-    /// `open_flow` keeps when the fee denom is the LP denom and the flow asset is a cw20
-    lp_donated: u128,
 }
 
 /// longest epoch range the weight oracle is filled / a claim is attributed over in one go
@@ -500,7 +497,6 @@ impl World {
             obs_epoch: cfg.e0.saturating_sub(1),
             snap_seen: BTreeMap::new(),
             paid_all: BTreeMap::new(),
-            lp_donated: 0,
         };
         let fee_info = w.info(cfg.fee_asset);
         let lp_info = w.info(0);
@@ -972,7 +968,7 @@ impl Incentive {
         let mut w = World::new(cfg);
         let o = w.observe();
         let line = render("ok", &o);
-        self.monitors_state(&o, &[0; NA], 0, mon);
+        self.monitors_state(&o, &[0; NA], mon);
         w.monitor_flow_query(&o, mon);
         w.prev = o;
         self.w = Some(w);
@@ -980,28 +976,19 @@ impl Incentive {
     }
 
     /// state monitors (hold after every op, successful or not)
-    fn monitors_state(&self, o: &Obs, taint: &[u8; NA], donated: u128, mon: &mut Monitor) {
+    fn monitors_state(&self, o: &Obs, taint: &[u8; NA], mon: &mut Monitor) {
         // C11 custody: LP held = positions + unclaimed flow funds denominated in the LP asset
         if let Some(sp) = sum_pos(o) {
             let base = sp + flow_liab(o, 0);
             mon.check("C11", "custody_ge", o.bal[0][0] >= base, || {
                 format!("incentive LP balance {} < positions {} + LP-asset flows {}", o.bal[0][0], sp, flow_liab(o, 0))
             });
-            // the equation as stated; the one known way to break it (an over-paid flow fee in the LP denom that
-            // open_flow keeps when the flow asset is a cw20) is tagged, and the equation must still hold exactly
-            // once that kept excess is counted
-            let tag = if taint[0] != 0 {
-                "after_unbacked_flow_expansion"
-            } else if donated > 0 {
-                "lp_denom_fee_overpaid_and_kept"
-            } else {
-                ""
-            };
+            // the equation as stated, strictly: the generator attaches no LP coins to calls that take no LP, and an
+            // over-paid flow fee in the LP denom is refunded whatever the flow asset is (monitor
+            // open_flow_refunds_overpaid_fee), so nothing but positions and LP-asset flows may sit in the balance
+            let tag = if taint[0] != 0 { "after_unbacked_flow_expansion" } else { "" };
             mon.check_tag("C11", "custody_eq", tag, o.bal[0][0] == base, || {
-                format!("incentive LP balance {} != positions {} + LP-asset flows {} (over-paid LP-denom fees kept so far: {})", o.bal[0][0], sp, flow_liab(o, 0), donated)
-            });
-            mon.check("C11", "custody_eq_counting_kept_fee_excess", o.bal[0][0] == base + donated, || {
-                format!("incentive LP balance {} != positions {} + LP-asset flows {} + kept fee excess {}", o.bal[0][0], sp, flow_liab(o, 0), donated)
+                format!("incentive LP balance {} != positions {} + LP-asset flows {}", o.bal[0][0], sp, flow_liab(o, 0))
             });
         }
         // C11 helper keeps nothing
@@ -1357,17 +1344,7 @@ impl Incentive {
                 }
             }
         }
-        if let (true, OpK::OpenFlow { asset, .. }) = (ok, &op.k) {
-            if cfg.lp_native && cfg.fee_asset == 0 && !kind_native(&cfg, *asset) {
-                let paid = op.offers.iter().find(|o| o.0 == 0).map(|o| o.1).unwrap_or(0);
-                if paid > cfg.fee_amt {
-                    w.lp_donated += paid - cfg.fee_amt;
-                    mon.stat("open_flow_lp_denom_fee_excess_kept");
-                }
-            }
-        }
         let taint = w.taint;
-        let donated = w.lp_donated;
         // how long the per-address histories / how many flows of the states visited are (statistics only)
         for p in post.pos.iter() {
             if let Q::Ok((o, c)) = p {
@@ -1390,7 +1367,7 @@ impl Incentive {
         }
         // ---------------- monitors ----------------
         w.monitor_flow_query(&post, mon);
-        self.monitors_state(&post, &taint, donated, mon);
+        self.monitors_state(&post, &taint, mon);
         for (id, paid, emission) in epoch_payouts {
             mon.check_tag("C13", "shares_le_one", "claims", paid <= emission, || {
                 format!("epoch {}: single-epoch claims on flow {id} add up to {paid} > the epoch's emission {emission}", op.epoch)
@@ -1601,8 +1578,36 @@ impl Incentive {
                     mon.check("C12", "open_creator_pays_exact", dbal(u, a) == paid_expected && f.creator == ACCTS[u], || {
                         format!("creator paid {:+} of asset {a}, expected {paid_expected}", dbal(u, a))
                     });
-                    if a != cfg.fee_asset && dbal(0, cfg.fee_asset) != 0 {
-                        mon.stat("open_flow_fee_excess_retained");
+                    // C11 (and the fee clause of C12): a fee charged in a native denom is settled exactly, from the
+                    // real balances: the sender is out the fee (+ the flow amount when the flow is opened in the fee
+                    // denom), the collector has the fee, the contract keeps the flow amount and nothing else -- every
+                    // unit attached beyond that is back with the sender, whatever the kind of the flow asset
+                    let fa = cfg.fee_asset;
+                    if kind_native(cfg, fa) {
+                        let flow_part = if a == fa { funded } else { 0 };
+                        let paid = op.offers.iter().find(|o| o.0 == fa).map(|o| o.1 as i128).unwrap_or(0);
+                        mon.check(
+                            "C11",
+                            "open_flow_refunds_overpaid_fee",
+                            dbal(u, fa) == -(fee + flow_part) && dbal(6, fa) == fee && dbal(0, fa) == flow_part,
+                            || {
+                                format!(
+                                    "open_flow in asset {a}, fee {fee} of native asset {fa}, {paid} attached: sender {:+} (expected {:+}), collector {:+} (expected {:+}), contract {:+} (expected {:+})",
+                                    dbal(u, fa),
+                                    -(fee + flow_part),
+                                    dbal(6, fa),
+                                    fee,
+                                    dbal(0, fa),
+                                    flow_part
+                                )
+                            },
+                        );
+                        if a != fa && paid > fee {
+                            mon.stat(&format!("open_flow_overpaid_fee_{}_flow_asset", if kind_native(cfg, a) { "native" } else { "cw20" }));
+                            if fa == 0 && !kind_native(cfg, a) {
+                                mon.stat("open_flow_overpaid_fee_in_native_lp_denom_cw20_flow_asset");
+                            }
+                        }
                     }
                     mon.stat(&format!("open_flow_ok_asset{}_{}", a, if a == cfg.fee_asset { "eqfee" } else { "nefee" }));
                     if a >= NB {
@@ -2321,9 +2326,13 @@ impl Incentive {
                         };
                         offers.push((asset, v));
                     } else {
+                        // over-paid fee: one time in twelve; one in three when the fee denom is the native LP denom and
+                        // the flow asset a cw20 (the excess must come back, or the LP custody equation breaks)
+                        let lp_fee_cw20_flow = cfg.lp_native && cfg.fee_asset == 0 && !kind_native(&cfg, asset);
                         let fv = match sloppy {
                             0 => fee.saturating_sub(1),
                             1 => fee + rng.range(1, 1000) as u128,
+                            5..=7 if lp_fee_cw20_flow => fee + rng.log_uniform(40),
                             _ => fee,
                         };
                         let av = match sloppy {
